@@ -585,3 +585,75 @@ func TestVerifReplay(t *testing.T) {
 `
 	return "serializer", ".", src, true
 }
+
+// ---------- C12 ----------
+func init() { replayGens["c12"] = replayC12 }
+
+func replayC12(o *Obligation) (string, string, string, bool) {
+	switch {
+	case strings.HasPrefix(o.Name, "timeheap.TimeHeap."):
+		src := `package timeheap
+
+import (
+	"testing"
+	"time"
+)
+
+// model: the windowed sum of what was added and not cleared
+func TestVerifReplay(t *testing.T) {
+	h := NewTimeHeap()
+	h.Add(5)
+	h.Add(7)
+	if got := h.AveragePerSecond(time.Hour) * 3600; got < 11.9 || got > 12.1 {
+		t.Fatalf("REPLAY-VIOLATION TimeHeap: added 5+7 but the windowed sum is %v", got)
+	}
+	h.Clear()
+	if got := h.AveragePerSecond(time.Hour) * 3600; got != 0 {
+		t.Fatalf("REPLAY-VIOLATION TimeHeap: after Add(5), Add(7), Clear() the windowed sum is %v, not 0", got)
+	}
+	h.Add(3)
+	if got := h.AveragePerSecond(time.Hour) * 3600; got < 2.9 || got > 3.1 {
+		t.Fatalf("REPLAY-VIOLATION TimeHeap: after Clear() and Add(3) the windowed sum is %v, not 3", got)
+	}
+}
+`
+		return "ds", "timeheap", src, true
+	case strings.HasPrefix(o.Name, "walker.Walker."):
+		src := `package walker
+
+import "testing"
+
+// model: every offered element is remembered as pushed and yielded once (no revisit) in queue order
+func TestVerifReplay(t *testing.T) {
+	for _, revisit := range []bool{false, true} {
+		w := New[int](revisit)
+		w.Push(1)
+		w.PushFront(1, 2, 3) // 1 is a repeat; 2 and 3 are new
+		for _, e := range []int{1, 2, 3} {
+			if !w.Pushed(e) {
+				t.Fatalf("REPLAY-VIOLATION Walker(revisit=%v): Push(1); PushFront(1,2,3): element %d was offered but is not remembered as pushed", revisit, e)
+			}
+		}
+		seen := map[int]int{}
+		for w.HasNext() {
+			seen[w.Next()]++
+		}
+		for _, e := range []int{1, 2, 3} {
+			if seen[e] == 0 || (!revisit && seen[e] != 1) {
+				t.Fatalf("REPLAY-VIOLATION Walker(revisit=%v): Push(1); PushFront(1,2,3): element %d yielded %d times", revisit, e, seen[e])
+			}
+		}
+		w2 := New[int](revisit)
+		w2.PushAll(4, 5, 4, 6)
+		for _, e := range []int{4, 5, 6} {
+			if !w2.Pushed(e) {
+				t.Fatalf("REPLAY-VIOLATION Walker(revisit=%v): PushAll(4,5,4,6): element %d not remembered as pushed", revisit, e)
+			}
+		}
+	}
+}
+`
+		return "ds", "walker", src, true
+	}
+	return "", "", "", false
+}
